@@ -223,3 +223,14 @@ CHECKS['C20'] = dict(level='other',
         'bound), packF3x9_E1x5, overflow of the multiples / powers of two near the type limits (boxes stop at a quarter of the range). Five defects were found and repaired (sign, findLSB, mask, bitfieldInsert on signed types; roundEven beyond 2^31).',
    technique='sanitizer instrumentation used statically: UBSan trap blocks in optimised LLVM IR as proof obligations; path conditions by abstract interpretation; interval domain with conjunct-wise refinement; witness evaluation of the condition term')
 NOT_APPLICABLE.pop('C20', None)
+
+CHECKS['C07'] = dict(level='proof',
+   text='unpackHalf1x16 / packHalf1x16 (detail::toFloat32 / toFloat16) decided for all 2^16 half and all 2^32 float bit patterns by exhaustive shape analysis: the input space is partitioned into 768 shapes (sign symbolic, exponent field '
+        'constant, the mantissa bits the code branches or carries on fixed, all other mantissa bits symbolic); on every shape the lane term derived from the instantiated code must be identical to the bit pattern IEEE-754 prescribes: '
+        'half -> float is the binary32 encoding of the binary16 value (+-0, the 10 subnormal alignments, 30 normal exponents, infinities, NaN with sign and payload); packHalf(unpackHalf(h)) == h for every pattern; float -> half is +-0 below 2^-25, '
+        'round-half-up of (2^23 + M) / 2^(14 - e) in the subnormal range, ((e << 10) | M >> 13) + bit 12 with the carry running into the exponent in the normal range (so 65520 and above become +-infinity), infinity and NaN kept, '
+        'sign copied in every shape.',
+   note='The renormalisation loop of toFloat32 is peeled by the optimiser (12 iterations) and the check requires the residual back edge to be dead on every shape. Round-half-up on the discarded bits returns a nearest half (upper neighbour '
+        'in magnitude on a tie), which the property allows. Not separately decided: monotonicity (a consequence of round-half-up and the carry into the exponent), the lane plumbing of packHalf2x16/4x16/packHalf<L> and the hvec types (C06).',
+   technique='exhaustive case analysis over symbolic bit-pattern shapes: substitution of each shape into the lane term of the instantiated LLVM IR and normalisation to a bit placement (known-bits folding of compares, shifts and constant additions)')
+NOT_APPLICABLE.pop('C07', None)
